@@ -54,6 +54,7 @@ pub struct Opts {
 
 thread_local! {
     static LAST_PANIC: RefCell<Option<String>> = const { RefCell::new(None) };
+    static IN_GUARD: std::cell::Cell<u32> = const { std::cell::Cell::new(0) };
 }
 
 pub fn install_panic_hook() {
@@ -69,6 +70,9 @@ pub fn install_panic_hook() {
         } else {
             "<non-string panic>".to_string()
         };
+        if IN_GUARD.with(|g| g.get()) == 0 {
+            eprintln!("harness panic outside guard at {loc}: {msg}");
+        }
         LAST_PANIC.with(|p| *p.borrow_mut() = Some(format!("panic at {loc}: {msg}")));
     }));
 }
@@ -76,7 +80,10 @@ pub fn install_panic_hook() {
 /// Runs `f`, turning a panic into `Err(description)`.
 pub fn guard<T>(f: impl FnOnce() -> T) -> Result<T, String> {
     LAST_PANIC.with(|p| *p.borrow_mut() = None);
-    match catch_unwind(AssertUnwindSafe(f)) {
+    IN_GUARD.with(|g| g.set(g.get() + 1));
+    let r = catch_unwind(AssertUnwindSafe(f));
+    IN_GUARD.with(|g| g.set(g.get() - 1));
+    match r {
         Ok(v) => Ok(v),
         Err(_) => Err(LAST_PANIC
             .with(|p| p.borrow_mut().take())
@@ -266,7 +273,9 @@ impl Report {
             "wall_s": self.started.elapsed().as_secs_f64(),
             "violations": self.violations.len(),
         });
-        let dir = opts.verif_dir.join("evidence");
+        let dir = std::env::var("VERIF_EVIDENCE_DIR")
+            .map(PathBuf::from)
+            .unwrap_or_else(|_| opts.verif_dir.join("evidence"));
         let _ = std::fs::create_dir_all(&dir);
         let path = dir.join(format!("{}.json", self.property));
         let tmp = dir.join(format!(".{}.json.tmp", self.property));
@@ -298,7 +307,9 @@ pub struct ReplayFile {
 }
 
 pub fn out_dir(opts: &Opts) -> PathBuf {
-    let d = opts.verif_dir.join("out").join("replays");
+    let d = std::env::var("VERIF_REPLAY_OUT")
+        .map(PathBuf::from)
+        .unwrap_or_else(|_| opts.verif_dir.join("out").join("replays"));
     let _ = std::fs::create_dir_all(&d);
     d
 }
